@@ -61,6 +61,11 @@ def run(P, rep, tier):
     from . import c04
 
     rep.attempt(c04.r2_open_coverage, P, rep, ctx)
+    # a user block that does not fit its reserved space overwrites the HDF5 signature: the container cannot be reopened
+    # (writer shape rule of C11.R2)
+    from . import c11
+
+    rep.attempt(c11.r2_save_shape, P, rep, ctx)
     rep.floor("C03.R1", 5)
     rep.floor("C03.R2", 25)
     rep.floor("C03.R3", 9)
